@@ -507,3 +507,216 @@ Proof.
       unfold result_buf in *. destruct rest as [|l2 rest']; [cbn [length]; replace (next + 1 - 1) with next by lia; exact Hh2|].
       cbn [length] in *. replace (next + S (S (length rest')) - 1) with (S next + S (length rest') - 1) by lia. exact Hh2.
 Qed.
+
+(* ---------- the tail: flatten memcpy, dense layers, copy to out *)
+Lemma memcpy_holds : forall sz d s n x (m : memB),
+  d <> 0 -> d <> s -> n = length x -> n <= size_of sz d -> n <= size_of sz s -> holds m s x ->
+  exists m', stepB sz m (SMemcpy d s n) = Some m' /\ holds m' d x /\ (forall b i, b <> d -> m' b i = m b i).
+Proof.
+  intros sz d s n x m Hd0 Hds Hn Hsd Hss Hh. cbn [exec_stmt].
+  assert (d =? 0 = false) as -> by (apply Nat.eqb_neq; exact Hd0).
+  assert (d =? s = false) as -> by (apply Nat.eqb_neq; exact Hds).
+  assert (n <=? size_of sz d = true) as -> by (apply Nat.leb_le; exact Hsd).
+  assert (n <=? size_of sz s = true) as -> by (apply Nat.leb_le; exact Hss).
+  assert (all_init m s n = true) as ->.
+  { unfold all_init. apply forallb_forall. intros i Hi. apply in_seq in Hi. rewrite Hh by lia. reflexivity. }
+  cbn [orb negb]. eexists. split; [reflexivity|]. split.
+  - intros i Hi. cbn beta. rewrite Nat.eqb_refl. assert (i <? n = true) as -> by (apply Nat.ltb_lt; lia). cbn [andb].
+    apply Hh. exact Hi.
+  - intros b i Hb. cbn beta. assert (b =? d = false) as -> by (apply Nat.eqb_neq; exact Hb). reflexivity.
+Qed.
+
+Lemma gen_layers_ab_correct : forall sz ls ib ob x (m : memB),
+  ls <> [] -> ib <> 0 -> ob <> 0 -> ib <> 1 -> ob <> 1 -> ib <> ob ->
+  holds m ib x -> length x <= size_of sz ib ->
+  (forall l, In l (removelast ls) -> length l <= size_of sz ib /\ length l <= size_of sz ob) ->
+  length (last ls []) <= size_of sz 1 ->
+  wf_dense_net (length x) ls = true ->
+  exists m', bodyB sz m (gen_layers_ab ib ob ls) = Some m' /\ holds m' 1 (eval_dense_net ls x).
+Proof.
+  intros sz ls. induction ls as [|l rest IH]; intros ib ob x m Hne Hi0 Ho0 Hi1 Ho1 Hio Hh Hx Hmid Hlast Hwf; [congruence|].
+  cbn [wf_dense_net] in Hwf. rewrite !andb_true_iff in Hwf. destruct Hwf as [[_ Hwl] Hwr].
+  destruct rest as [|l2 rest'].
+  - cbn [gen_layers_ab eval_dense_net]. cbn [last] in Hlast.
+    apply gen_layer_holds with (ib := ib); try assumption; lia.
+  - cbn [gen_layers_ab]. rewrite body_app.
+    destruct (Hmid l ltac:(cbn; left; reflexivity)) as [Hli Hlo].
+    destruct (gen_layer_holds sz ib ob x l m Ho0 ltac:(congruence) Hh Hx Hlo Hwl) as [m1 [He1 Hh1]].
+    rewrite He1. cbn [eval_dense_net]. rewrite <- (eval_dense_length l x) in Hwr.
+    apply (IH ob ib (eval_dense l x) m1); try assumption; try congruence.
+    + rewrite eval_dense_length. exact Hlo.
+    + intros l' Hin. destruct (Hmid l') as [A B]; [cbn [removelast]; right; exact Hin|]. split; assumption.
+Qed.
+
+Lemma eval_net_length : forall ls x, ls <> [] -> wf_spatial ls (length x) = true ->
+  length (eval_net ls x) = last (map layer_out_size ls) 0.
+Proof.
+  induction ls as [|l rest IH]; intros x Hne Hwf; [congruence|].
+  cbn [wf_spatial] in Hwf. apply andb_prop in Hwf. destruct Hwf as [Hl Hr].
+  cbn [eval_net fold_left]. fold (eval_net rest (eval_layer l x)).
+  destruct rest as [|l2 rest']; [cbn; apply eval_layer_length; exact Hl|].
+  rewrite IH; [reflexivity|discriminate|]. rewrite (eval_layer_length l x Hl). exact Hr.
+Qed.
+
+Lemma size_sp : forall a b (sp rest : list nat) j, j < length sp -> size_of (a :: b :: sp ++ rest) (2 + j) = nth j sp 0.
+Proof. intros a b sp rest j Hj. unfold size_of. cbn [Nat.add nth]. apply app_nth1. exact Hj. Qed.
+
+Lemma size_rest : forall a b (sp rest : list nat) e, size_of (a :: b :: sp ++ rest) (2 + length sp + e) = nth e rest 0.
+Proof.
+  intros a b sp rest e. unfold size_of. cbn [Nat.add nth]. rewrite app_nth2 by lia. f_equal. lia.
+Qed.
+
+Lemma nth_last_len : forall (l : list nat) d, l <> [] -> nth (length l - 1) l d = last l d.
+Proof.
+  induction l as [|a r IH]; intros d Hne; [congruence|]. destruct r as [|b r']; [reflexivity|].
+  cbn [length last]. replace (S (S (length r')) - 1) with (S (length (b :: r') - 1)) by (cbn [length]; lia).
+  cbn [nth]. apply IH. discriminate.
+Qed.
+
+Lemma holds_init : forall x : list bool, holds (init_mem x) 0 x.
+Proof. intros x i Hi. unfold init_mem. cbn. apply nth_error_nth'. exact Hi. Qed.
+
+Lemma spatial_part : forall in_size out_size ls extra x,
+  ls <> [] -> wf_spatial ls (length x) = true -> length x = in_size ->
+  exists m1, bodyB (in_size :: out_size :: map layer_out_size ls ++ extra ++ [sum_list (map layer_locals ls)])
+                   (init_mem x) (gen_spatial (2 + length ls + length extra) ls 0 2 0) = Some m1 /\
+    holds m1 (1 + length ls) (eval_net ls x).
+Proof.
+  intros in_size out_size ls extra x Hne Hwf Hlen.
+  set (sz := in_size :: out_size :: map layer_out_size ls ++ extra ++ [sum_list (map layer_locals ls)]).
+  destruct (spatial_correct ls sz (2 + length ls + length extra) 0 2 0 x (init_mem x) Hwf) as [m1 [He Hh]]; try lia.
+  - apply holds_init.
+  - unfold sz, size_of. cbn [nth]. lia.
+  - intros j Hj. unfold sz. rewrite size_sp by (rewrite map_length; exact Hj).
+    change 0 with (layer_out_size LFlatten). rewrite map_nth. apply le_n.
+  - unfold sz. rewrite <- (map_length layer_out_size ls) at 1. rewrite size_rest.
+    rewrite app_nth2 by lia. rewrite Nat.sub_diag. cbn [nth Nat.add]. apply le_n.
+  - exists m1. split; [exact He|]. unfold result_buf in Hh. destruct ls as [|l r]; [congruence|].
+    cbn [length] in *. replace (1 + S (length r)) with (2 + S (length r) - 1) by lia. exact Hh.
+Qed.
+
+Lemma size_last : forall a b ls rest, ls <> [] ->
+  size_of (a :: b :: map layer_out_size ls ++ rest) (1 + length ls) = last (map layer_out_size ls) 0.
+Proof.
+  intros a b ls rest Hne. replace (1 + length ls) with (2 + (length ls - 1)) by (destruct ls; [congruence|cbn [length]; lia]).
+  rewrite size_sp by (rewrite map_length; destruct ls; [congruence|cbn [length]; lia]).
+  rewrite <- (map_length layer_out_size ls). apply nth_last_len. destruct ls; [congruence|discriminate].
+Qed.
+
+Theorem gen_net_correct_bool : forall m x,
+  wf_spatial_model m = true -> length x = sm_C m * prod (sm_dims m) ->
+  execB (gen_net m) x = Some (eval_model m x).
+Proof.
+  intros [C dims ls flat ds] x Hwf Hlen. unfold wf_spatial_model in Hwf. cbn [sm_C sm_dims sm_spatial sm_flat sm_dense] in *.
+  rewrite !andb_true_iff in Hwf. destruct Hwf as [[[Hne Hsp] Hfl] Hwd].
+  assert (Hls : ls <> []) by (destruct ls; [discriminate|discriminate]).
+  rewrite <- Hlen in Hsp.
+  pose proof (eval_net_length ls x Hls Hsp) as Hy.
+  unfold execB, exec, gen_net, eval_model. cbv zeta. cbn [sizes body sm_C sm_dims sm_spatial sm_flat sm_dense].
+  set (y := eval_net ls x) in *. set (lastS := last (map layer_out_size ls) 0) in *.
+  set (nloc := sum_list (map layer_locals ls)).
+  destruct flat; [destruct ds as [|d ds]|].
+  - (* Flatten, no dense layer: memcpy to flattened_output, memcpy to out *)
+    change ([C * prod dims; lastS] ++ map layer_out_size ls ++ [lastS] ++ [nloc])
+      with (C * prod dims :: lastS :: map layer_out_size ls ++ [lastS] ++ [nloc]).
+    set (sz := C * prod dims :: lastS :: map layer_out_size ls ++ [lastS] ++ [nloc]).
+    change (size_of sz 0) with (C * prod dims). change (size_of sz 1) with lastS.
+    rewrite Hlen, Nat.eqb_refl. cbn [negb]. rewrite body_app.
+    destruct (spatial_part (C * prod dims) lastS ls [lastS] x Hls Hsp Hlen) as [m1 [He1 Hh1]].
+    fold nloc sz y in He1, Hh1. rewrite He1.
+    assert (Ssrc : size_of sz (1 + length ls) = lastS) by (apply size_last; exact Hls).
+    assert (Slin : size_of sz (2 + length ls) = lastS).
+    { unfold sz. rewrite <- (Nat.add_0_r (2 + length ls)). rewrite <- (map_length layer_out_size ls) at 1.
+      rewrite size_rest. reflexivity. }
+    destruct (memcpy_holds sz (2 + length ls) (1 + length ls) lastS y m1) as [m2 [He2 [Hh2 _]]]; try lia; try assumption.
+    destruct (memcpy_holds sz 1 (2 + length ls) lastS y m2) as [m3 [He3 [Hh3 _]]]; try lia; try assumption.
+    { change (size_of sz 1) with lastS. lia. }
+    cbn [exec_body]. rewrite He2, He3. rewrite <- Hy. apply read_all_holds. exact Hh3.
+  - (* Flatten then dense layers *)
+    set (ws := widths (d :: ds)) in *.
+    set (extra := Nat.max lastS (max_list (removelast ws)) :: (if 1 <? length ws then [max_list ws] else [])).
+    change ([C * prod dims; last ws 0] ++ map layer_out_size ls ++ extra ++ [nloc])
+      with (C * prod dims :: last ws 0 :: map layer_out_size ls ++ extra ++ [nloc]).
+    set (sz := C * prod dims :: last ws 0 :: map layer_out_size ls ++ extra ++ [nloc]).
+    change (size_of sz 0) with (C * prod dims). change (size_of sz 1) with (last ws 0).
+    rewrite Hlen, Nat.eqb_refl. cbn [negb]. rewrite body_app.
+    destruct (spatial_part (C * prod dims) (last ws 0) ls extra x Hls Hsp Hlen) as [m1 [He1 Hh1]].
+    fold nloc sz y in He1, Hh1. rewrite He1.
+    assert (Ssrc : size_of sz (1 + length ls) = lastS) by (apply size_last; exact Hls).
+    assert (Slin : size_of sz (2 + length ls) = Nat.max lastS (max_list (removelast ws))).
+    { unfold sz. rewrite <- (Nat.add_0_r (2 + length ls)). rewrite <- (map_length layer_out_size ls) at 1.
+      rewrite size_rest. reflexivity. }
+    destruct (memcpy_holds sz (2 + length ls) (1 + length ls) lastS y m1) as [m2 [He2 [Hh2 _]]]; try lia; try assumption.
+    cbn [exec_body]. rewrite He2.
+    destruct (gen_layers_ab_correct sz (d :: ds) (2 + length ls) (S (2 + length ls)) y m2) as [m3 [He3 Hh3]];
+      try lia; try assumption; try discriminate.
+    + intros l Hin.
+      assert (H2 : 1 <? length ws = true).
+      { unfold ws, widths. rewrite map_length. apply Nat.ltb_lt. destruct ds as [|d2 ds']; [cbn in Hin; contradiction|cbn [length]; lia]. }
+      assert (Stmp : size_of sz (S (2 + length ls)) = max_list ws).
+      { replace (S (2 + length ls)) with (2 + length ls + 1) by lia. unfold sz.
+        rewrite <- (map_length layer_out_size ls) at 1. rewrite size_rest. unfold extra. rewrite H2. reflexivity. }
+      rewrite Slin, Stmp. split.
+      * assert (length l <= max_list (removelast ws)); [|lia].
+        apply max_list_ge. unfold ws, widths. rewrite removelast_map. apply in_map. exact Hin.
+      * apply max_list_ge. unfold ws, widths. apply in_map. eapply removelast_incl; eassumption.
+    + change (size_of sz 1) with (last ws 0). unfold ws. rewrite last_map_length. apply le_n.
+    + rewrite Hy. exact Hwd.
+    + rewrite He3. unfold ws. rewrite last_map_length.
+      rewrite <- (eval_dense_net_length (d :: ds) y) by discriminate. apply read_all_holds. exact Hh3.
+  - (* no Flatten: the last spatial output is the result *)
+    destruct ds as [|d ds]; [|cbn in Hfl; discriminate].
+    change ([C * prod dims; lastS] ++ map layer_out_size ls ++ [] ++ [nloc])
+      with (C * prod dims :: lastS :: map layer_out_size ls ++ [] ++ [nloc]).
+    set (sz := C * prod dims :: lastS :: map layer_out_size ls ++ [] ++ [nloc]).
+    change (size_of sz 0) with (C * prod dims). change (size_of sz 1) with lastS.
+    rewrite Hlen, Nat.eqb_refl. cbn [negb]. rewrite body_app.
+    destruct (spatial_part (C * prod dims) lastS ls [] x Hls Hsp Hlen) as [m1 [He1 Hh1]].
+    fold nloc sz y in He1, Hh1. rewrite He1.
+    assert (Ssrc : size_of sz (1 + length ls) = lastS) by (apply size_last; exact Hls).
+    destruct (memcpy_holds sz 1 (1 + length ls) lastS y m1) as [m2 [He2 [Hh2 _]]]; try lia; try assumption.
+    { destruct ls; [congruence|cbn [length]; lia]. }
+    { change (size_of sz 1) with lastS. lia. }
+    cbn [exec_body]. rewrite He2. rewrite <- Hy. apply read_all_holds. exact Hh2.
+Qed.
+
+(* ---------- words, wrapper, host *)
+Lemma eval_model_length : forall m x, wf_spatial_model m = true -> length x = net_in m ->
+  length (eval_model m x) = net_out m.
+Proof.
+  intros [C dims ls flat ds] x Hwf Hlen. unfold wf_spatial_model, net_in, net_out, eval_model in *.
+  cbn [sm_C sm_dims sm_spatial sm_flat sm_dense] in *.
+  rewrite !andb_true_iff in Hwf. destruct Hwf as [[[Hne Hsp] _] _].
+  assert (Hls : ls <> []) by (destruct ls; [discriminate|discriminate]). rewrite <- Hlen in Hsp.
+  destruct ds as [|d ds]; [cbn [eval_dense_net]; apply eval_net_length; assumption|].
+  rewrite eval_dense_net_length by discriminate. symmetry. apply last_map_length.
+Qed.
+
+Lemma eval_net_app : forall l1 l2 x, eval_net (l1 ++ l2) x = eval_net l2 (eval_net l1 x).
+Proof. intros. unfold eval_net. apply fold_left_app. Qed.
+
+Lemma eval_net_dense : forall ds x, eval_net (map LDense ds) x = eval_dense_net ds x.
+Proof. induction ds as [|d ds IH]; intros x; [reflexivity|]. cbn [map eval_net fold_left eval_layer eval_dense_net]. apply IH. Qed.
+
+Theorem net_layers_eval : forall m x, eval_net (net_layers m) x = eval_model m x.
+Proof.
+  intros m x. unfold net_layers, eval_model. rewrite !eval_net_app, eval_net_dense.
+  destruct (sm_flat m); reflexivity.
+Qed.
+
+Theorem gen_net_correct_words : forall W m inp,
+  (0 < W)%Z -> wf_spatial_model m = true -> length inp = net_in m ->
+  exists out, execZ W (gen_net m) inp = Some out /\ length out = net_out m /\
+    forall j, (0 <= j < W)%Z -> map (lane j) out = eval_model m (map (lane j) inp).
+Proof.
+  intros W m inp HW Hwf Hlen. unfold net_in in Hlen.
+  assert (H0 := gen_net_correct_bool m (map (lane 0) inp) Hwf ltac:(rewrite map_length; exact Hlen)).
+  destruct (exec_words W (gen_net m) inp _ HW H0) as [out [Hz Hall]].
+  exists out. split; [exact Hz|]. split.
+  - assert (E := Hall 0%Z ltac:(lia)). rewrite H0 in E. injection E as E.
+    apply (f_equal (@length bool)) in E. rewrite map_length in E. rewrite <- E.
+    apply eval_model_length; [exact Hwf|]. rewrite map_length. exact Hlen.
+  - intros j Hj. specialize (Hall j Hj).
+    rewrite (gen_net_correct_bool m (map (lane j) inp) Hwf) in Hall by (rewrite map_length; exact Hlen).
+    injection Hall as Hall. symmetry. exact Hall.
+Qed.
